@@ -64,13 +64,16 @@ theorem pred_exists {q : List Grp} {j : Nat} {G : Grp} (h : q[j]? = some G) (hj 
 
 theorem expNode_congr {s s' : St} {ℓ : Nat} {q : List Grp} {j : Nat} {G : Grp}
     (h1 : published s' G = published s G) (h2 : linkOf s' q j = linkOf s q j)
-    (h3 : ∀ Pg p, q[j - 1]? = some Pg → grpW W s' ℓ Pg p = grpW W s ℓ Pg p) :
+    (h3 : ∀ Pg p, 0 < j → q[j - 1]? = some Pg → grpW W s' ℓ Pg p = grpW W s ℓ Pg p) :
     expNode W s' ℓ q j G = expNode W s ℓ q j G := by
   unfold expNode
   rw [h1, h2]
-  cases hp : q[j - 1]? with
-  | none => rfl
-  | some Pg => simp only [h3 Pg _ hp]
+  by_cases hj : j = 0
+  · simp [hj]
+  · simp only [hj, ↓reduceIte]
+    cases hp : q[j - 1]? with
+    | none => rfl
+    | some Pg => simp only [h3 Pg _ (Nat.pos_of_ne_zero hj) hp]
 
 theorem linkOf_eq_of {s s' : St} {q : List Grp} {j : Nat}
     (h : ∀ G', q[j + 1]? = some G' → linked s' G' = linked s G') : linkOf s' q j = linkOf s q j := by
@@ -183,7 +186,7 @@ theorem case_xPublish (hW : WordSpecs P.C pb cb W) (hI : Inv W P pb cb s Q) (hi 
           have : 0 < j := by omega
           simp [this, Loc.isPub, Loc.isLink]
         · exact linked_ne hag Gs hhs
-      · intro Pg p _; exact grpW_keep hi hag hhm' rfl rfl hsm' a.lk Pg p
+      · intro Pg p _ _; exact grpW_keep hi hag hhm' rfl rfl hsm' a.lk Pg p
   · intro G' hG'; rw [hmode_keep hi hag hhm', cnt_keep hi hag rfl rfl hsm']; exact hL.nonempty G' hG'
   · intro j' G' hj' h0; rw [hmode_keep hi hag hhm']; exact hL.laterHeads j' G' hj' h0
   · intro _ j' G' hj' hh'
